@@ -168,7 +168,13 @@ fn bump_seq(id: &[u8; 32], f: &mut impl Facts) {
 /// Returns `true` when accepted. Effects go to `emit`.
 pub fn eval_op(id: &[u8; 32], op: &Op, f: &mut impl Facts, emit: &mut dyn FnMut(Eff)) -> bool {
     match op {
-        Op::Init | Op::NoOp => {}
+        // Writes nothing at all (not even the order-tracking fact): segments must be able to
+        // contain commands without fact updates, before and between writers.
+        Op::NoOp => {
+            emit(Eff { id: *id, tag: 1, data: Vec::new() });
+            return true;
+        }
+        Op::Init => {}
         Op::Merge => {}
         Op::Put { name, key, val } => {
             f.put(*name, key.clone(), val.clone());
